@@ -32,12 +32,16 @@ structure Commit where
   email  : Bool            -- the author has an e-mail address
   parent : Nat             -- id of the first parent (0 = none)
   kind   : Kind
+  tree   : Nat := 0        -- content id of the tree without the POLICY file (what the compiler reads)
   deriving DecidableEq, Repr, Inhabited
 
 structure Dir where
   head   : Option Nat := none    -- HEAD of `src` (none = not cloned)
   built  : Bool := false         -- `code` holds the result of a successful compile
   nested : Bool := false         -- a later `mv next pN` landed inside this directory
+  code   : Nat := 0              -- content id of the tree of the last successful compile (0 = none)
+  dirty  : Bool := false         -- `code` holds output of some successful compile
+  mixed  : Bool := false         -- `code` holds output of compiles of different trees (leftover files of an earlier one)
   deriving DecidableEq, Repr, Inhabited
 
 inductive Reg | fcount | lcount | count
@@ -54,6 +58,8 @@ inductive Cmd
   | uptodateCheck           -- the subshell body of uptodate()
   | rmrfNext                -- rm -rf $NEXT
   | mkdirNext               -- mkdir $NEXT
+  | rmrfNextSrc             -- rm -rf $NEXT/src        (not in the script today; understood so that such an edit is followed)
+  | mkdirNextP              -- mkdir -p $NEXT          (dito)
   | logToFile               -- exec >$PLOG 2>&1
   | gitClone                -- git clone --quiet --depth 2 $GIT_URL src        (in $NEXT)
   | testPolicyFile          -- [ -e $POLICY_FILE ]
@@ -95,7 +101,7 @@ inductive Cmd
 def Cmd.name : Cmd → String
   | .nop w => "nop:" ++ w | .openLock => "openLock" | .flockNB => "flockNB" | .exit n => s!"exit{n}"
   | .ret n => s!"ret{n}" | .uptodateCheck => "uptodateCheck" | .rmrfNext => "rmrfNext"
-  | .mkdirNext => "mkdirNext" | .logToFile => "logToFile" | .gitClone => "gitClone"
+  | .mkdirNext => "mkdirNext" | .rmrfNextSrc => "rmrfNextSrc" | .mkdirNextP => "mkdirNextP" | .logToFile => "logToFile" | .gitClone => "gitClone"
   | .testPolicyFile => "testPolicyFile" | .readPolicyFile => "readPolicyFile"
   | .testReg .fcount => "testFcount" | .testReg .lcount => "testLcount" | .testReg .count => "testCount"
   | .setReg .fcount n => s!"setFcount{n}" | .setReg .lcount n => s!"setLcount{n}" | .setReg .count n => s!"setCount{n}"
@@ -112,10 +118,17 @@ def Cmd.name : Cmd → String
 
 /-- Commands that write below `policies/` (other than opening the lock file) or to the remote. -/
 def Cmd.mutating : Cmd → Bool
-  | .rmrfNext | .mkdirNext | .logToFile | .gitClone | .mkdirCode | .mkPrevLink | .compile | .touchFailed
+  | .rmrfNext | .mkdirNext | .rmrfNextSrc | .mkdirNextP | .logToFile | .gitClone | .mkdirCode | .mkPrevLink | .compile | .touchFailed
   | .writePolicyFile | .gitAdd | .gitCommitPolicy | .gitPullMerge | .gitPush | .gitResetHash | .mvNextTo
   | .rmCurrent | .lnCurrent | .rmFailed | .cleanupFind | .cleanupRm | .gitRevert | .gitPullPlain
   | .touchLock => true
+  | _ => false
+
+/-- Commands whose work is done by a child process of the shell (the child inherits fd 9). -/
+def Cmd.external : Cmd → Bool
+  | .flockNB | .rmrfNext | .mkdirNext | .rmrfNextSrc | .mkdirNextP | .gitClone | .mkdirCode | .mkPrevLink | .compile | .touchFailed | .gitAdd
+  | .gitCommitPolicy | .gitPullMerge | .gitPush | .gitResetHash | .mvNextTo | .rmCurrent | .lnCurrent | .rmFailed
+  | .gitRevert | .gitPullPlain | .touchLock => true
   | _ => false
 
 /-- One instruction: source line, abstract command, continuation on status 0 / on failure,
@@ -126,6 +139,7 @@ structure Instr where
   ok   : Nat
   fail : Nat
   vis  : Bool := true
+  inh  : Bool := true     -- the child process of this command inherits fd 9 (false: the command carries `9>&-`)
   deriving DecidableEq, Repr, Inhabited
 
 abbrev Prog := List Instr
@@ -147,6 +161,7 @@ structure Proc where
   wpol    : Option Nat := none  -- POLICY file written in the work tree, not committed
   spol    : Option Nat := none  -- … and staged
   touched : Bool := false       -- ghost: has executed a mutating command
+  fetched : Bool := false       -- ghost: `git pull --no-rebase` done, the following `git push` not yet
   deriving DecidableEq, Repr, Inhabited
 
 /-- Everything but the processes. -/
@@ -163,17 +178,19 @@ structure G where
   hist     : List Nat := []      -- ghost: the numbers N of every `mv next pN` (with an existing `next`), newest first
   trouble  : Bool := false       -- ghost: a `git clone`, `git commit`, `git pull --no-rebase` or `git push` of the script has failed
   edited   : Bool := false       -- ghost: somebody rewrote the POLICY file by hand (or such a commit was reverted)
+  raced    : Bool := false       -- ghost: a user commit landed between `git pull --no-rebase` and `git push` of a live invocation
   deriving DecidableEq, Repr, Inhabited
 
 structure State where
   g     : G := {}
   procs : List Proc := []
   npid  : Nat := 1
+  dying : List Nat := []         -- invocations whose shell was killed while a child process runs (see `Event.killDuring`)
   deriving DecidableEq, Repr, Inhabited
 
 /-! ### Lookups -/
 
-def rootCommit : Commit := ⟨true, none, false, 0, .user⟩
+def rootCommit : Commit := ⟨true, none, false, 0, .user, 0⟩
 
 /-- Commit with id `c` (ids start at 1); the empty tree for anything else. -/
 def commitAt (store : List Commit) (c : Nat) : Commit :=
@@ -237,11 +254,20 @@ def exec (c : Cmd) (g : G) (p : Proc) : G × Proc × Bool :=
     match g.next with
     | none => ({ g with next := some {} }, p, true)
     | some _ => (g, p, false)
+  | .rmrfNextSrc =>
+    match g.next with
+    | some d => ({ g with next := some { d with head := none } }, p, true)
+    | none => (g, p, true)
+  | .mkdirNextP =>
+    match g.next with
+    | none => ({ g with next := some {} }, p, true)
+    | some _ => (g, p, true)
   | .gitClone =>
     match g.next with
     | some d =>
       if d.head.isNone then
-        ({ g with next := some { d with head := some g.remote } }, { p with base := g.remote, wpol := none, spol := none }, true)
+        ({ g with next := some { d with head := some g.remote } },
+         { p with base := g.remote, wpol := none, spol := none, fetched := false }, true)
       else ({ g with trouble := true }, p, false)
     | none => ({ g with trouble := true }, p, false)
   | .testPolicyFile =>
@@ -262,7 +288,9 @@ def exec (c : Cmd) (g : G) (p : Proc) : G × Proc × Bool :=
     | some d =>
       match d.head with
       | some c =>
-        if (commitAt g.store c).good then ({ g with next := some { d with built := true } }, p, true)
+        if (commitAt g.store c).good then
+          ({ g with next := some { d with built := true, code := (commitAt g.store c).tree, dirty := true,
+                                          mixed := d.mixed || (d.dirty && d.code != (commitAt g.store c).tree) } }, p, true)
         else ({ g with next := some { d with built := false } }, p, false)
       | none => (g, p, false)
     | none => (g, p, false)
@@ -275,15 +303,15 @@ def exec (c : Cmd) (g : G) (p : Proc) : G × Proc × Bool :=
       let t := commitAt g.store h
       if t.pol == some n then ({ g with trouble := true }, p, false)            -- nothing to commit
       else
-        let c : Commit := ⟨t.good, some n, g.sysEmail, h, .policy⟩
+        let c : Commit := ⟨t.good, some n, g.sysEmail, h, .policy, t.tree⟩
         (({ g with store := g.store ++ [c] }).setNextHead (g.store.length + 1), { p with spol := none, wpol := none }, true)
     | _, _ => ({ g with trouble := true }, p, false)
   | .saveHash => (g, { p with hash := g.nextHead.getD 0 }, g.nextHead.isSome)
   | .gitPullMerge =>
     match g.nextHead with
     | some h =>
-      if g.remote = p.base then (g, p, true)            -- already up to date
-      else if h = p.base then (g.setNextHead g.remote, { p with base := g.remote }, true)   -- fast forward
+      if g.remote = p.base then (g, { p with fetched := true }, true)            -- already up to date
+      else if h = p.base then (g.setNextHead g.remote, { p with base := g.remote, fetched := true }, true)   -- fast forward
       else
         let ours := commitAt g.store h
         let theirs := commitAt g.store g.remote
@@ -291,15 +319,20 @@ def exec (c : Cmd) (g : G) (p : Proc) : G × Proc × Bool :=
         if theirs.pol != basePol && ours.pol != basePol && theirs.pol != ours.pol then
           ({ g with trouble := true }, p, false)   -- conflict in POLICY
         else
-          let m : Commit := ⟨theirs.good, if ours.pol != basePol then ours.pol else theirs.pol, g.sysEmail, h, .merge⟩
-          (({ g with store := g.store ++ [m] }).setNextHead (g.store.length + 1), { p with base := g.remote }, true)
+          let m : Commit :=
+            ⟨theirs.good, if ours.pol != basePol then ours.pol else theirs.pol, g.sysEmail, h, .merge, theirs.tree⟩
+          (({ g with store := g.store ++ [m] }).setNextHead (g.store.length + 1),
+           { p with base := g.remote, fetched := true }, true)
     | none => ({ g with trouble := true }, p, false)
   | .gitPush =>
     match g.nextHead with
     | some h =>
-      if g.remote = p.base then ({ g with remote := h }, { p with base := h }, true)
-      else ({ g with trouble := true }, p, false)         -- rejected: the remote has moved
-    | none => ({ g with trouble := true }, p, false)
+      if g.remote = p.base then ({ g with remote := h }, { p with base := h, fetched := false }, true)
+      else
+        -- rejected: the remote has moved.  Git trouble only if a new POLICY number stays unpublished.
+        ({ g with trouble := g.trouble || (commitAt g.store h).pol != (commitAt g.store g.remote).pol },
+         { p with fetched := false }, false)
+    | none => ({ g with trouble := true }, { p with fetched := false }, false)
   | .gitResetHash => if p.hash = 0 then (g, p, false) else (g.setNextHead p.hash, { p with wpol := none, spol := none }, g.next.isSome)
   | .mvNextTo =>
     match g.next with
@@ -326,7 +359,7 @@ def exec (c : Cmd) (g : G) (p : Proc) : G × Proc × Bool :=
       if p.hash = 0 || h != p.hash || t.kind == .merge then (g, p, false)
       else
         let pt := commitAt g.store t.parent
-        let r : Commit := ⟨pt.good, pt.pol, g.sysEmail, h, .revert⟩
+        let r : Commit := ⟨pt.good, pt.pol, g.sysEmail, h, .revert, pt.tree⟩
         (({ g with store := g.store ++ [r], edited := g.edited || pt.pol != t.pol }).setNextHead (g.store.length + 1), p, true)
     | none => (g, p, false)
   | .gitPullPlain =>
@@ -359,6 +392,9 @@ inductive Event
   | spawn                                                    -- somebody starts newpolicy.sh
   | step (pid : Nat)                                         -- the scheduler lets process pid run one command
   | kill (pid : Nat)                                         -- SIGKILL before its next command
+  | killDuring (pid : Nat)                                   -- SIGKILL of the shell while the child process of its next
+                                                             -- command runs: the child (it inherited fd 9 and with it the
+                                                             -- flock) finishes the command, then the invocation is gone
   deriving DecidableEq, Repr
 
 def replaceProc (ps : List Proc) (p : Proc) : List Proc :=
@@ -368,11 +404,16 @@ def findProc (ps : List Proc) (pid : Nat) : Option Proc := ps.find? (·.pid == p
 
 def applyCommit (g : G) (good : Bool) (pol : Option Nat) (email : Bool) : G :=
   let t := commitAt g.store g.remote
-  let c : Commit := ⟨good, if pol.isSome then pol else t.pol, email, g.remote, .user⟩
+  let c : Commit := ⟨good, if pol.isSome then pol else t.pol, email, g.remote, .user, g.store.length + 1⟩
   { g with store := g.store ++ [c], remote := g.store.length + 1, edited := g.edited || pol.isSome }
 
-def step (prog : Prog) (s : State) : Event → State
-  | .commit good pol email => { s with g := applyCommit s.g good pol email }
+/-- Some live invocation has pulled and not yet pushed. -/
+def pushPending (ps : List Proc) : Bool := ps.any fun p => p.alive && p.fetched
+
+/-- Events without the orphan mechanism (`killDuring` is handled in `step`). -/
+def stepCore (prog : Prog) (s : State) : Event → State
+  | .commit good pol email =>
+    { s with g := { applyCommit s.g good pol email with raced := s.g.raced || pushPending s.procs } }
   | .spawn => { s with procs := s.procs ++ [{ pid := s.npid }], npid := s.npid + 1 }
   | .step pid =>
     match findProc s.procs pid with
@@ -389,10 +430,34 @@ def step (prog : Prog) (s : State) : Event → State
         { s with g := release s.g pid, procs := replaceProc s.procs { p with alive := false, exit := none } }
       else s
     | none => s
+  | .killDuring _ => s
+
+/-- All events.  A shell killed while its child runs (`killDuring`) is remembered in `dying`; the
+next step of that invocation is the child finishing its command, after which the invocation is
+dead and the lock is free.  Only commands that run as a child process (`Cmd.external`) can be
+interrupted this way; for the others `killDuring` is `kill`. -/
+def step (prog : Prog) (s : State) : Event → State
+  | .killDuring pid =>
+    match findProc s.procs pid with
+    | some p =>
+      match instrAt prog p.pc with
+      | some i =>
+        if p.alive && i.cmd.external then
+          if i.inh then { s with dying := pid :: s.dying }                       -- the child keeps fd 9: lock stays
+          else { s with g := release s.g pid, dying := pid :: s.dying }           -- `9>&-`: lock is free, child goes on
+        else stepCore prog s (.kill pid)
+      | none => stepCore prog s (.kill pid)
+    | none => s
+  | .step pid =>
+    if s.dying.contains pid then
+      let s1 := stepCore prog s (.step pid)
+      stepCore prog { s1 with dying := s1.dying.filter (· != pid) } (.kill pid)
+    else stepCore prog s (.step pid)
+  | e => stepCore prog s e
 
 /-- The world before anything happened: a repository with one good commit without POLICY file. -/
 def init (sysEmail : Bool) : State :=
-  { g := { store := [⟨true, none, true, 0, .user⟩], remote := 1, sysEmail := sysEmail } }
+  { g := { store := [⟨true, none, true, 0, .user, 1⟩], remote := 1, sysEmail := sysEmail } }
 
 def run (prog : Prog) (sysEmail : Bool) (es : List Event) : State := es.foldl (step prog) (init sysEmail)
 
@@ -424,14 +489,29 @@ def G.currentOK (g : G) : Bool :=
     | some d => d.built
     | none => false
 
-/-- `current` names a compiled directory whose source is the newest revision of the repository. -/
+/-- `current` names a compiled directory whose source is the newest revision of the repository
+and whose code was compiled from the tree of that revision. -/
 def G.newest (g : G) : Bool :=
   match g.current with
   | none => false
   | some n =>
     match lookupDir g.dirs n with
-    | some d => d.built && d.head == some g.remote
+    | some d => d.built && d.head == some g.remote && d.code == (commitAt g.store g.remote).tree && !d.mixed
     | none => false
+
+/-- The compiled code of a directory belongs to the tree of its HEAD. -/
+def dirCodeOK (store : List Commit) (d : Dir) : Bool :=
+  !d.built ||
+  match d.head with
+  | some h => !d.mixed && d.code == (commitAt store h).tree
+  | none => false
+
+/-- Every command that runs as a child process hands fd 9 (the lock) down to it. -/
+def inhOK (prog : Prog) : Bool := prog.all fun i => !i.cmd.external || i.inh
+
+/-- No policy directory carries a number above max(POLICY file of the newest revision, link). -/
+def G.numbersCovered (g : G) : Bool :=
+  g.dirs.all fun x => x.1 ≤ max ((commitAt g.store g.remote).pol.getD 0) (g.current.getD 0)
 
 /-- A leftover `next` whose HEAD equals the remote head: `uptodate()` will answer "yes". -/
 def G.staleNext (g : G) : Bool :=
